@@ -321,7 +321,15 @@ Definition step_scale (acc : compu_result) (s : scale) : compu_result :=
         | Some v1, Some vd =>
           if dec_is_zero vd then
             (* Decimal division: 0/0 raises InvalidOperation (not caught), x/0 raises DivisionByZero (caught: factor 1, offset 0) *)
-            if dec_is_zero v1 then CErr else COk (mkCompu (cm_values c) ratio_one ratio_zero (cm_const c))
+            if dec_is_zero v1 then CErr
+            else
+              (* the handler compares numerator[0].text with denominator[0].text and, if they are equal, touches denominator[1] *)
+              if leqb_c n0 d0 then
+                match dens with
+                | _ :: _ :: _ => COk (mkCompu (cm_values c) ratio_one ratio_zero (cm_const c))
+                | _ => CErr
+                end
+              else COk (mkCompu (cm_values c) ratio_one ratio_zero (cm_const c))
           else
             match parse_dec (strip n0) with
             | Some v0 => COk (mkCompu (cm_values c) (v1, vd) (v0, vd) (cm_const c))
